@@ -17,7 +17,9 @@ RULE = ("reference of 1, 2 or 3..20 atoms (geometry classes as C01), target 1..2
         "copy with reassigned coordinates. Non-trivial = rotation angle > 0.1 rad and t != 0. "
         "Distinct = sha1 of the case JSON.")
 ASSUMPTIONS = [
-    "anchors are generic (sin >= 1e-3) or exactly collinear at construction; the ill-conditioned zone between is not generated",
+    "anchors are generic (sin >= 1e-3), exactly collinear, or near-collinear with sin in [1e-5,1e-3] (full equality is demanded "
+    "there, with targets within ~1 nm and |t| <= 3 nm so that rounding stays 10x inside the 1e-8 tolerance); angles below 5e-6 "
+    "that are not exactly collinear are not generated",
     "for a free axis only the invariants named in the statement are compared (distance to anchor, "
     "coordinate along the axis, distance from the axis, mutual distances of atoms sharing the anchor)",
     "the library's random completion of 1-/2-atom references is seeded with a Hypothesis-drawn seed",
@@ -44,7 +46,9 @@ def case_strategy(draw):
     else:
         R = np.eye(3)
     tk = draw(st.sampled_from(["float", "integer", "zero"]))
-    if tk == "float":
+    if base["geom"] == "near-collinear":
+        t = rng.uniform(-3, 3, 3) if tk != "zero" else np.zeros(3)
+    elif tk == "float":
         t = rng.uniform(-50, 50, 3)
     elif tk == "integer":
         t = rng.integers(-50, 51, 3).astype(float)
@@ -100,7 +104,7 @@ def check(case):
         by_anchor = {}
         for j, a in enumerate(chosen):
             by_anchor.setdefault(a, []).append(j)
-            if kinds[a] == "generic":
+            if kinds[a] in ("generic", "near"):
                 err = float(np.abs(out1[j] - exp[j]).max())
                 if not err <= TOL:
                     fail("equivariance", "atom %d (generic anchor %d): map(R ref+t) differs from "
@@ -119,7 +123,7 @@ def check(case):
                         fail("axis-invariants", "atom %d (collinear anchor %d): %s %.12g -> %.12g"
                              % (j, a, nm, x0, x1))
         for a, js in by_anchor.items():
-            if kinds[a] != "generic" and len(js) > 1:
+            if kinds[a] == "collinear" and len(js) > 1:
                 d0 = np.linalg.norm(out0[js][:, None] - out0[js][None], axis=-1)
                 d1 = np.linalg.norm(out1[js][:, None] - out1[js][None], axis=-1)
                 if not np.abs(d0 - d1).max() <= TOL:
@@ -159,5 +163,5 @@ def check(case):
 SUBCHECKS = [
     Sub("motion", check, strategy=lambda tier: case_strategy(),
         quick=3000, thorough=80000,
-        min_share={"size:1": 0.08, "size:2": 0.08, "R:general": 0.3, "anchors:collinear": 0.1}),
+        min_share={"size:1": 0.08, "size:2": 0.08, "R:general": 0.3, "geom:near-collinear": 0.03}),
 ]
